@@ -71,6 +71,9 @@ TOPO = {
     "t4": dict(_COMMON, drain="bd_outhole", balls={"bd_trough": 2},
                devices={"bd_outhole": {"switches": ["s_outhole"], "coil": "c_outhole", "target": "bd_trough", "eject_timeout": 3.0},
                         "bd_trough": {"switches": ["s_t1", "s_t2", "s_t3"], "coil": "c_trough", "target": "playfield", "eject_timeout": 4.0}}),
+    "t5": dict(_COMMON, drain="bd_outhole", balls={"bd_trough": 2, "bd_outhole": 1}, config="t4",
+               devices={"bd_outhole": {"switches": ["s_outhole"], "coil": "c_outhole", "target": "bd_trough", "eject_timeout": 3.0},
+                        "bd_trough": {"switches": ["s_t1", "s_t2"], "coil": "c_trough", "target": "playfield", "eject_timeout": 4.0}}),
     "t2": dict(_COMMON, devices={"bd_trough": _TROUGH, "bd_plunger": _PLUNGER,
                                  "bd_lock": {"entrance": "s_lock_entrance", "capacity": 2, "coil": "c_lock", "target": "playfield",
                                              "eject_timeout": 4.0, "shot": True}}, balls={"bd_trough": 2}),
@@ -89,10 +92,13 @@ SCRIPTS = {
     "plunger-lane-return": ("t1r", None, [["start"], ["add"], ["shoot", "bd_plunger"], ["drain"], ["drain"]]),
     "over-request": ("t1", None, [["start"], ["add"], ["add"], ["drain"], ["drain"], ["drain"]]),
     "outhole": ("t4", None, [["start"], ["add"], ["drain"], ["drain"]]),
+    "full-trough": ("t5", {"ball_devices": {"bd_trough": {"ball_switches": "s_t1, s_t2"}},
+                           "virtual_platform_start_active_switches": "s_t1, s_t2, s_outhole",
+                           "game": {"allow_start_with_ball_in_drain": True}}, [["start"], ["drain"]]),
     "two-attempts": ("t1", {"ball_devices": {"bd_plunger": {"max_eject_attempts": 2}}}, [["start"], ["drain"]]),
 }
 QUICK_SCRIPTS = ("one-ball-game", "two-balls-in-play", "mechanical-plunger", "lock-shot", "saucer-shot", "plunger-lane-return",
-                 "over-request", "outhole")
+                 "over-request", "outhole", "full-trough")
 MAX_REST_STEPS = 400
 
 
@@ -132,6 +138,9 @@ class BallDriver:
                 self.m.events.add_handler("balldevice_%s_%s" % (d, e), self._on_ev, _n="%s_%s" % (d, e))
         self.loop.drain()
         self._errors("boot")
+        for sig, what in self.w.violations:
+            self.violate("C04:" + sig, what)
+        self.w.violations = []
         self.check_always("boot")
         if self.at_rest():
             self.check_rest("boot")
@@ -346,7 +355,7 @@ class BallDriver:
                          (choice, total, known, w.total, desc))
         pending = (self.m.game is not None and self.m.game.balls_in_play > w.total) or \
             any(c.get("mechanical") and w.at[n] > 0 for n, c in self.w.dev.items()) or \
-            any(d.state == "eject_broken" for _, d in self.devices())
+            any(d.state in ("eject_broken", "waiting_for_target_ready") for _, d in self.devices())
         if not pending:
             for n, d in self.devices() + [("playfield", self.m.playfield)]:
                 if d.available_balls != d.balls and not (n != "playfield" and self.w.dev[n].get("mechanical") and w.at[n] > 0) \
@@ -378,6 +387,8 @@ class BallDriver:
             tgt = self.w.dev[n]["target"]
             if d.state == "waiting_for_target_ready" and tgt in self.m.ball_devices and self.m.ball_devices[tgt].state == "eject_broken":
                 continue        # its target has reported itself broken
+            if d.state == "waiting_for_target_ready" and tgt in self.w.dev and w.at[tgt] >= self.w.capacity(tgt):
+                continue        # its target is physically full: nothing can be served until a ball leaves it
             if d.state != "idle":
                 desc = desc or self.describe()
                 self.violate("C05:rest-not-idle:%s:%s" % (n, d.state), "nothing moves any more (no timer, no ball in transit) but %s is in "
